@@ -1,4 +1,5 @@
 import P9Model.Conc.ConnInv
+import P9Model.Conc.ConnProgress
 import P9Model.Lemmas.Lock.Leaf
 import P9Model.Lemmas.Lock.ChildMu
 import P9Model.Lemmas.Lock.Wire
@@ -24,19 +25,28 @@ theorem duplicate_tag_never_answered (s : St) (a : Act) (r : Req) (h : r.phase =
     enabled s a r = false := by
   cases a <;> simp [enabled, h]
 
-/-- **A Tflush naming its own tag does not wait** (the D10 `fix:`): `WaitTag` is skipped, the
-handler can return at once. -/
-theorem own_tag_flush_immediate (s : St) (r : Req) (h : r.flushOf = some r.tag) :
-    (upd s .waitTag r).phase = r.phase ∧ (upd s .waitTag r).waited = true := by
-  simp [upd, h]
-
-/-- **A Tflush naming an idle (or already answered) tag does not wait.** -/
+/-- **A Tflush naming an idle (or already answered) tag – or the tag of a Tflush, its own included –
+does not wait**: nothing holds that tag (a Tflush never registers its tag, the D19 `fix:`; the
+holders of tags are non-flush requests, `Inv2.active`). -/
 theorem idle_tag_flush_immediate (s : St) (r : Req) (old : Nat) (h : r.flushOf = some old)
     (hidle : holder s old = none) : (upd s .waitTag r).waited = true ∧ (upd s .waitTag r).phase = r.phase := by
-  by_cases hown : old = r.tag
-  · subst hown; simp [upd, h]
-  · have : r.flushOf ≠ some r.tag := by rw [h]; intro e; exact hown (by simpa using e)
-    simp [upd, this, h, hidle]
+  simp [upd, h, hidle]
+
+/-- **A Tflush is never dropped and never holds a tag**, whatever tags are in flight. -/
+theorem flush_always_accepted (s : St) (r : Req) (old : Nat) (h : r.flushOf = some old) :
+    (upd s .start r).phase = .handling := by
+  simp [upd, h]
+
+/-- **No request gets stuck** (`Conc/ConnProgress.lean`): in every state reachable by any
+interleaving, every accepted request that is not answered yet can move itself, or is a Tflush
+waiting for a non-flush request that can move. In particular flushes never wait for each other
+(before the D19 `fix:` two Tflush naming each other's tags could wait forever – 25 of 400000
+pipelined trials on the real server). -/
+theorem no_request_gets_stuck (ls : List Label) (s : St) (h : run {} ls = some s) (i : Nat) (r : Req)
+    (hi : get s i = some r) (hp : r.phase ≠ .dropped ∧ r.phase ≠ .replied) :
+    (∃ a, enabled s a r = true) ∨
+    (∃ j rj, r.awaiting = some j ∧ get s j = some rj ∧ rj.flushOf = none ∧ ∃ a, enabled s a rj = true) :=
+  progress ls s h i r hi hp
 
 /-- **Progress of an accepted request**: once no backend call runs on its behalf (and, for a
 Tflush, its wait is over) the handler can return, and a handled request can be answered – no
